@@ -105,9 +105,23 @@ impl ByteCompiler<'_> {
     pub(crate) fn r#return(&mut self, return_value_on_stack: bool) {
         let actions = self.return_jump_record_actions();
 
+        // The value stack is not preserved while finally blocks run (a caught exception resets
+        // it), so the return value waits in a register that nothing else uses.
+        let runs_finally = actions
+            .iter()
+            .any(|action| matches!(action, JumpRecordAction::HandleFinally { .. }));
+        let return_value_register = if return_value_on_stack && runs_finally {
+            let value = self.register_allocator.alloc_persistent();
+            self.pop_into_register(&value);
+            Some(value.index())
+        } else {
+            None
+        };
+
         JumpRecord::new(
             JumpRecordKind::Return {
                 return_value_on_stack,
+                return_value_register,
             },
             actions,
         )
